@@ -516,7 +516,12 @@ def divide_outputs(
                     mailboxes[d].send(x)
             except Exception as e:
                 # Inform the source we're going down
-                source.throw(e)
+                try:
+                    source.throw(e)
+                except StopIteration:
+                    # The source handled the exception and finished;
+                    # the original exception is what has to be passed on
+                    pass
                 raise
             i += 1
 
